@@ -6,6 +6,7 @@
 package main
 
 import (
+	"syscall"
 	"bytes"
 	"encoding/json"
 	"flag"
@@ -44,6 +45,8 @@ type Job struct {
 	Pre        map[string]string `json:"pre,omitempty"`      // pre-existing files: path -> content
 	PreAudit   bool              `json:"pre_audit,omitempty"`
 	ForceOrder map[string]int    `json:"force_order,omitempty"`
+	ReadFault *ReadFaultSpec `json:"read_fault,omitempty"` // the Nth successful read of a file with this suffix fails with EMFILE
+	NoRaceReport bool            `json:"no_race_report,omitempty"` // race build used only to make memory accesses scheduling points (races themselves are C12's)
 	ForceAll   int               `json:"force_all"`
 	Replay     []vs.Choice       `json:"replay,omitempty"`
 	MinOrders  int               `json:"min_orders,omitempty"`
@@ -106,7 +109,15 @@ type Obs struct {
 
 var errLog bytes.Buffer
 
+// ReadFaultSpec: which read fails
+type ReadFaultSpec struct {
+	Suffix string `json:"suffix"`
+	Nth    int    `json:"nth"`
+}
+
 type runner struct {
+	readCount    int
+	readFaultHit string
 	job   *Job
 	spec  *WSpec
 	ref   *Ref
@@ -212,6 +223,7 @@ func (r *runner) setup() {
 	}
 	r.crashViolations = nil
 	r.protectedHits = nil
+	r.readCount, r.readFaultHit = 0, ""
 	errLog.Reset()
 	r.env.reset()
 	r.ret = nil
@@ -336,6 +348,15 @@ func runWorkflowJob(job *Job, res *Result) {
 				u[p] = r.ref.Files[p]
 			}
 			units = append(units, u)
+			if len(spec.PartialUnits) > 0 && len(t.Outs) > len(spec.PartialUnits) {
+				pu := map[string]string{}
+				for _, port := range spec.PartialUnits {
+					if p, ok := t.Outs[port]; ok {
+						pu[p] = r.ref.Files[p]
+					}
+				}
+				units = append(units, pu)
+			}
 		}
 		res.ExtraInfo = map[string]interface{}{"task_outputs": units}
 	}
@@ -348,6 +369,21 @@ func runWorkflowJob(job *Job, res *Result) {
 	vs.SimExec = r.env.simExec
 	vs.CrashHook = r.crashHook
 	vs.FSHook = r.fsHook
+	vs.ReadFault = nil
+	if job.ReadFault != nil {
+		vs.ReadFault = func(p string) error {
+			if !strings.HasSuffix(p, job.ReadFault.Suffix) {
+				return nil
+			}
+			r.readCount++
+			if r.readCount == job.ReadFault.Nth {
+				r.readFaultHit = p
+				vs.Note("READFAULT:" + normPath(p))
+				return &os.PathError{Op: "open", Path: p, Err: syscall.EMFILE}
+			}
+			return nil
+		}
+	}
 	if job.ForceOrder != nil {
 		vs.ForceOrder = job.ForceOrder
 	}
@@ -416,7 +452,7 @@ func runWorkflowJob(job *Job, res *Result) {
 		}
 		sort.Slice(res.Crash, func(i, j int) bool { return res.Crash[i].ID < res.Crash[j].ID })
 	}
-	if job.Race {
+	if job.Race && !job.NoRaceReport {
 		res.Races = vs.Races
 		keys := []string{}
 		for k := range vs.Races {
